@@ -444,3 +444,98 @@ Proof.
   exists added. split; [exact Hlog|]. intros s ds t i Hb Hn Ht HP.
   eapply (twin_intact _ added s ds _ t i Hb Ht); [rewrite Hn; exact Hrun|exact Hops|exact HP].
 Qed.
+
+(* ---------- every log a push writes is truthful ---------- *)
+
+Definition Tracks {A} (x : M A) : Prop := forall fs fs' r, x fs = (fs', r) -> log_tracks fs fs'.
+
+Lemma tr_pure {A} (x : M A) : pure_read x -> Tracks x.
+Proof. intros H fs fs' r E. rewrite (H _ _ _ E). apply lt_refl. Qed.
+Lemma tr_mret {A} (a : A) : Tracks (mret a).
+Proof. apply tr_pure, pure_mret. Qed.
+Lemma tr_mlift {A} (r : res A) : Tracks (mlift r).
+Proof. apply tr_pure, pure_mlift. Qed.
+Lemma tr_mget : Tracks mget.
+Proof. apply tr_pure, pure_mget. Qed.
+Lemma tr_mbind {A B} (x : M A) (f : A -> M B) : Tracks x -> (forall a, Tracks (f a)) -> Tracks (mbind x f).
+Proof.
+  intros Hx Hf fs fs' r. unfold mbind. destruct (x fs) as [fs1 r1] eqn:E. pose proof (Hx _ _ _ E) as T1.
+  destruct r1 as [a|e|]; [|intros [= <- _]; exact T1|intros [= <- _]; exact T1].
+  intros E2. eapply lt_trans; [exact T1|eapply Hf; exact E2].
+Qed.
+Lemma tr_mop op on_err : (forall a c, op a = inl c -> log_tracks a c) -> Tracks (mop op on_err).
+Proof. intros H fs fs' r E. eapply lt_mop; eassumption. Qed.
+
+Lemma nrun_snoc l ops op l1 : nrun l ops = Some l1 -> nrun l (ops ++ [op]) = nstep l1 op.
+Proof.
+  intros H. rewrite (nrun_app _ _ _ _ H). cbn [nrun]. destruct (nstep l1 op); reflexivity.
+Qed.
+
+Lemma lt_clean_up : forall fuel fs d, log_tracks fs (clean_up fuel fs d).
+Proof.
+  induction fuel as [|f IH]; intros fs d; cbn [clean_up]; [apply lt_refl|].
+  destruct d as [|c r]; [apply lt_refl|].
+  destruct (negb _); [apply lt_refl|]. destruct (dir_is_empty fs (c :: r)); [|apply lt_refl].
+  eapply lt_trans; [|apply IH].
+  exists [OpRmdir (c :: r)]. cbn [fs_log]. split; reflexivity.
+Qed.
+
+Lemma lt_fold_clean : forall cl fs, log_tracks fs (fold_left (fun fs d => clean_up (S (List.length d)) fs d) cl fs).
+Proof.
+  induction cl as [|d rest IH]; intros fs; [apply lt_refl|].
+  change (log_tracks fs (fold_left (fun fs d => clean_up (S (List.length d)) fs d) rest (clean_up (S (List.length d)) fs d))).
+  eapply lt_trans; [apply lt_clean_up|apply IH].
+Qed.
+
+Lemma tr_clean_all cl : Tracks (clean_all cl).
+Proof.
+  intros fs fs' r H. replace fs' with (fst (clean_all cl fs)) by (rewrite H; reflexivity).
+  unfold clean_all. cbn [fst]. apply lt_fold_clean.
+Qed.
+
+Lemma tr_save_all dm ov cl : Tracks (save_all dm ov cl).
+Proof. intros fs fs' r. apply save_all_tracks. Qed.
+
+Lemma tr_save_rej dm : forall rejs, Tracks (save_rej_files dm rejs).
+Proof.
+  induction rejs as [|[rn data] rest IH]; cbn [save_rej_files]; [apply tr_mret|].
+  destruct (has_dotdot rn); [apply tr_mlift|].
+  apply tr_mbind; [|intros _; exact IH]. apply tr_mop. intros a c. apply lt_create.
+Qed.
+
+Lemma tr_backups dm : forall stack ov down_to, Tracks (backups dm ov stack down_to).
+Proof.
+  intros stack ov down_to fs fs' r H.
+  destruct (backups_phase dm _ _ _ _ _ _ H) as (added & L & R & _). exists added. auto.
+Qed.
+
+Lemma tr_save_applied dm names : Tracks (save_applied dm names).
+Proof.
+  unfold save_applied. apply tr_mbind; [apply tr_mop; intros a c; apply lt_mkdirs|]. intros _.
+  apply tr_mbind; [apply tr_mget|]. intros fs1. apply tr_mop. intros a c. apply lt_create.
+Qed.
+
+Lemma tr_apply_patches cfg db series : Tracks (apply_patches cfg db series).
+Proof.
+  unfold apply_patches. apply tr_mbind; [apply tr_pure, pure_apply_series|]. intros [[st final] rejs].
+  destruct (c_dry_run cfg); [apply tr_mret|].
+  apply tr_mbind; [apply tr_save_all|]. intros cleaning.
+  apply tr_mbind; [apply tr_clean_all|]. intros _.
+  apply tr_mbind; [apply tr_save_rej|]. intros _.
+  destruct (match c_backup cfg with Always => true | OnFail => _ | Never => false end); [|apply tr_mret].
+  apply tr_mbind; [apply tr_backups|]. intros _. apply tr_mret.
+Qed.
+
+(* the whole command, every configuration, goal, tree and fault position: replayed on the names of the start tree the
+   log never unlinks a name that is not there and never mis-states whether a create found its name bound, and it
+   ends with the names of the final tree *)
+Theorem cmd_push_tracks cfg db g : Tracks (cmd_push cfg db g).
+Proof.
+  unfold cmd_push. apply tr_mbind; [apply tr_mget|]. intros fs0.
+  apply tr_mbind; [apply tr_mlift|]. intros [[series first] last].
+  destruct (Nat.eqb first last); [apply tr_mret|].
+  apply tr_mbind; [apply tr_mlift|]. intros _.
+  apply tr_mbind; [apply tr_apply_patches|]. intros applied_n.
+  apply tr_mbind; [|intros _; apply tr_mret].
+  destruct (c_dry_run cfg); [apply tr_mret|apply tr_save_applied].
+Qed.
